@@ -473,3 +473,50 @@ example : GraphTie.DistinctIds C12_ex
           && [(false, 2), (true, 3), (true, 6), (true, 10), (true, 13), (true, 14)].all (fun p => l.contains p)) = true := by
   refine ⟨⟨by decide, by decide⟩, ?_⟩
   decide +kernel
+
+/-- **Model is source, the remaining generators and the pool formulas.**  Machine-translated from the current source
+(`Extracted.GraphLoops`), for ALL graphs with `GraphTie.DistinctIds` (batteries may hang on several inverters):
+(1) `EVChargerPowerFormula.generate()` is `evFormula` (as lists);
+(2) `CHPPowerFormula.generate()` — `_get_chp_meters`: every CHP has exactly one predecessor, a meter, all of whose
+    successors are CHPs; the SET of those meters — is `chpFormula` (errors, and the terms up to order);
+(3) `PVPowerFormula.generate()` without ids (search from the grid) and with the ids of PV inverters (`PVPool`, also a part
+    of the inverters): the components with these ids, the WHOLE loop of `_get_metric_fallback_components` with its
+    primary/fallback pairs and the all-successors-requested rule, the fallback formulas — is `pvFormula` (`poolWalk`);
+(4) the loop of `_get_metric_fallback_components` on any selection `sel` of devices makes, up to order, exactly the
+    entries of the model's `poolTerms true sel g`;
+(5) `BatteryPowerFormula.generate()` with `allow_fallback=False` (= the fallback formula of a battery meter): the error
+    for a partially requested inverter and the inverters selected are `batErrL` / `batSel` (`GraphTie.batSelRef`);
+(6) `BatteryPowerFormula.generate()` with fallbacks (`BatteryPool`, also a part of the batteries): the error conditions,
+    and which primary components (inverters / the battery meters standing in for them) are pushed with which sign and
+    `nones_are_zeros`, are `batteryFormula` (`GraphTie.FormulaEquivPrimary`; the fallback formulas attached to the
+    battery terms are not part of this statement).
+Side conditions: the requested ids are ids of the pool's devices (`GraphTie.IdsOf`), resp. battery ids of the graph. -/
+theorem C12_model_is_source_pools :
+    (∀ (g : Grid) (ids : List Nat), Extracted.GraphLoops.evFormula g ids = evFormula ids) ∧
+    (∀ g : Grid, GraphTie.DistinctIds g → GraphTie.FormulaEquiv (Extracted.GraphLoops.chpFormula g) (chpFormula g)) ∧
+    (∀ g : Grid, GraphTie.DistinctIds g →
+      GraphTie.FormulaEquiv (Extracted.GraphLoops.pvFormula g true []) (pvFormula g none)) ∧
+    (∀ (g : Grid) (i : Nat) (is : List Nat), GraphTie.DistinctIds g → GraphTie.IdsOf g (i :: is) Node.isPv →
+      GraphTie.FormulaEquiv (Extracted.GraphLoops.pvFormula g true (i :: is)) (pvFormula g (some (i :: is)))) ∧
+    (∀ (g : Grid) (sel : Node → Bool), (∀ n, sel n = true → n.isMeter = false) → GraphTie.DistinctIds g →
+      ∃ D : CDict, (Extracted.GraphLoops.metricFallbackComponents (GraphTie.selComps g sel)).Perm D
+        ∧ (D.map GraphTie.toM).Perm (poolTerms true sel g)) ∧
+    (∀ (g : Grid) (ids : List Nat), GraphTie.DistinctIds g → (∀ b ∈ ids, b ∈ allBatsL g.succ) →
+      GraphTie.FormulaEquiv (Extracted.GraphLoops.batteryFormulaNoFallback g ids) (GraphTie.batSelRef g ids)) ∧
+    (∀ (g : Grid) (ids : List Nat), GraphTie.DistinctIds g → (∀ b ∈ ids, b ∈ allBatsL g.succ) →
+      GraphTie.FormulaEquivPrimary (Extracted.GraphLoops.batteryFormula g ids) (batteryFormula g ids)) :=
+  ⟨GraphTie.ev_tie, GraphTie.chp_tie, GraphTie.pv_dfs_tie GraphTie.dfs_facts,
+    fun g i is hd hi => GraphTie.pv_pool_tie g i is hd hi,
+    fun g sel hsel hd => by
+      obtain ⟨D, h1, h2, _⟩ := GraphTie.pool_loop g sel hsel hd
+      exact ⟨D, h1, h2⟩,
+    GraphTie.battery_sel_tie, GraphTie.battery_primary_tie⟩
+
+/-- Non-vacuity: on the example graph (two CHP-free … a CHP meter 10, battery inverters 7 and 14) the machine-translated
+CHP formula is `#10`, and the battery formula of the pool {8, 9, 15} pushes the battery meter `#6` and inverter `#14`. -/
+example : GraphTie.DistinctIds C12_ex
+    ∧ (Extracted.GraphLoops.chpFormula C12_ex).toOption.map (fun ts => ts.map (fun t => (t.neg, t.id))) = some [(false, 10)]
+    ∧ ((Extracted.GraphLoops.batteryFormula C12_ex [8, 9, 15]).toOption.map (fun ts => ts.map (fun t => t.id))).any
+        (fun l => l.length == 2 && [6, 14].all (fun i => l.contains i)) = true := by
+  refine ⟨⟨by decide, by decide⟩, by decide +kernel, by decide +kernel⟩
+
